@@ -264,8 +264,10 @@ Fixpoint hist_clauses (prev : ostate) (pc : list string) (steps : list c04_step)
       let next := apply_patch prev st in
       let nc := state_clauses next in
       (* state clauses are reported where they first become violated, tagged with the operation kind *)
-      map (fun c => c +++ ":" +++ st_kind st) (filter (fun c => negb (str_mem c pc)) (sdedup nc))
-      ++ map (fun c => c +++ ":" +++ st_kind st) (sdedup (step_clauses prev next st))
+      (* "resume" returns to the state observed before the re-import: whatever is violated there was reported when it arose *)
+      (if String.eqb (st_kind st) "resume" then [] else
+       map (fun c => c +++ ":" +++ st_kind st) (filter (fun c => negb (str_mem c pc)) (sdedup nc))
+       ++ map (fun c => c +++ ":" +++ st_kind st) (sdedup (step_clauses prev next st)))
       ++ hist_clauses next nc r
   end.
 
